@@ -20,6 +20,19 @@ from . import c12
 
 DRIVERS = ["drv_style"]
 
+
+_SIG_COUNT = {}
+
+
+def _viol(rep, signature, what, replay):
+    """rep.violation, at most 3 cases per signature (core keeps the first 50 violations overall:
+    one noisy signature must not crowd out the others)."""
+    _SIG_COUNT[signature] = _SIG_COUNT.get(signature, 0) + 1
+    if _SIG_COUNT[signature] <= 3:
+        return rep.violation(signature, what, replay)
+    rep.count("violations-suppressed:" + signature)
+    return False
+
 NAMES = ["bold", "faint", "italic", "underline", "blink", "inverse", "conceal", "crossed"]
 
 
@@ -169,7 +182,7 @@ def corr_strings(ctx, rep, mdl):
             want += [(c.ch, st) for r in T.decode(t.encode()).rows for c in r.cells]
         got = [(c.ch, c.style()) for r in dec.rows for c in r.cells]
         if got != want or not dec.final.is_default() or dec.problems or any(c.link for r in dec.rows for c in r.cells):
-            rep.violation("strings:cells-differ-from-styles", "ANSIStrings output does not show every text in exactly its style / does not end in the default state",
+            _viol(rep, "strings:cells-differ-from-styles", "ANSIStrings output does not show every text in exactly its style / does not end in the default state",
                           dict(op="style.paint_strings", pairs=pairs, got=i, final=dec.final.describe(), problems=dec.problems))
     return outs
 
@@ -212,7 +225,7 @@ def corr_fill(ctx, rep, mdl, lines):
         if op in ("right_fill", "mark_empty"):
             line = meta[1]
             if self_contained(line) and not self_contained(b):
-                rep.violation("fill:%s-leaks" % op, "a self-contained line is no longer self-contained after %s" % op,
+                _viol(rep, "fill:%s-leaks" % op, "a self-contained line is no longer self-contained after %s" % op,
                               dict(op="style." + op, request=q, got=i, final=T.decode(b).final.describe()))
         else:
             url, text = meta[1], meta[2]
@@ -220,7 +233,7 @@ def corr_fill(ctx, rep, mdl, lines):
             cells = [c for r in dec.rows for c in r.cells]
             want_link = url if url else None
             if not dec.final.is_default() or dec.problems or any(c.link != want_link for c in cells):
-                rep.violation("link:unbalanced", "format_osc8_hyperlink output does not open and close the link around the text",
+                _viol(rep, "link:unbalanced", "format_osc8_hyperlink output does not open and close the link around the text",
                               dict(op="style.link", url=url, text=text, got=i))
     return outs
 
@@ -274,10 +287,10 @@ def corr_truncate(ctx, rep, mdl, gr):
             esc_want = esc_in + [s for k, s in tail if k == "e"]
             esc_got = re.findall(r"\x1b\[[0-9;]*[A-Za-z]|\x1b\].*?\x1b\\", b.decode("utf-8", "replace"))
             if esc_got != esc_want:
-                rep.violation("truncate:escapes-not-preserved", "truncate_str changed the escape sequences of the line",
+                _viol(rep, "truncate:escapes-not-preserved", "truncate_str changed the escape sequences of the line",
                               dict(op="style.truncate", width=w, tail=tail, items=items, got=i))
         if self_contained(line.encode()) and self_contained(tail_s.encode()) and not self_contained(b):
-            rep.violation("truncate:leaks", "a self-contained line is no longer self-contained after truncation",
+            _viol(rep, "truncate:leaks", "a self-contained line is no longer self-contained after truncation",
                           dict(op="style.truncate", width=w, tail=tail, items=items, got=i))
     return outs
 
@@ -339,7 +352,7 @@ def corr_pad(ctx, rep, mdl, gr):
             keep.append((a, c, r, out))
             line = "".join(s for _, s in items).encode()
             if self_contained(line) and not self_contained(unhx(out)):
-                rep.violation("pad:leaks", "a self-contained panel line is no longer self-contained after pad_panel_line_to_width",
+                _viol(rep, "pad:leaks", "a self-contained panel line is no longer self-contained after pad_panel_line_to_width",
                               dict(op="style.pad_panel", args=a, case=c, got=r))
     if mdl:
         model = mdl.ask([q for q in mreq if q])
@@ -562,7 +575,7 @@ def check_stdout(rep, replay, out):
             what = "rendition"
         if what:
             bad += 1
-            rep.violation("newline-not-default:" + what,
+            _viol(rep, "newline-not-default:" + what,
                           "at a newline of stdout the terminal is not in its default state (%s)" % what,
                           dict(replay, row=n, row_text=r.text()[:200], state=e.describe(), problems=r.problems[:3]))
             break
